@@ -9,7 +9,7 @@ export GOFLAGS=-mod=mod GOPROXY=off GOSUMDB=off GOTOOLCHAIN=local
 D="$(cd "$(dirname "${BASH_SOURCE[0]}")" && pwd)"
 pid="$1"; n="$2"; shift 2; extra="$@"
 out="/verif/seeded/$pid-$n"; mkdir -p "$out"
-src="/tmp/seed-$pid/seeded/$n"
+src="${SEED_SRC:-/tmp/seed-$pid/seeded/$n}"   # SEED_SRC: directory holding patch.diff / demo_test.go / meta.json of a new change
 # once a change has been kept, it is re-checked from its own directory
 [ -f "$src/patch.diff" ] || src="$out"
 [ -f "$src/patch.diff" ] || { echo "$pid-$n: no patch"; exit 2; }
@@ -23,10 +23,10 @@ git -C "$wt" apply "$src/patch.diff" 2>/dev/null || res "patch does not apply"
 suite=$(cd "$wt" && go test -count=1 -vet=off -timeout 180s . 2>&1 | tail -1)
 echo "$suite" | grep -q '^ok' || res "existing suite fails with the patch: $suite"
 cp "$src/demo_test.go" "$wt/zz_seeded_demo_test.go"
-demo_with=$(cd "$wt" && go test -count=1 -vet=off -timeout 180s -run "TestSeeded_${pid}_${n}\$" . 2>&1 | tail -1)
+demo_with=$(cd "$wt" && go test -count=1 -vet=off -timeout 180s -run "TestSeeded_${pid}_" . 2>&1 | tail -1)
 echo "$demo_with" | grep -q '^ok' && res "demo passes WITH the patch"
 git -C "$wt" checkout -q -- .
-demo_without=$(cd "$wt" && go test -count=1 -vet=off -timeout 180s -run "TestSeeded_${pid}_${n}\$" . 2>&1 | tail -1)
+demo_without=$(cd "$wt" && go test -count=1 -vet=off -timeout 180s -run "TestSeeded_${pid}_" . 2>&1 | tail -1)
 echo "$demo_without" | grep -q '^ok' || res "demo fails WITHOUT the patch: $demo_without"
 rm -f "$wt/zz_seeded_demo_test.go"
 git -C "$wt" apply "$src/patch.diff"
